@@ -22,6 +22,7 @@
 #include <netinet/in.h>
 #include <arpa/inet.h>
 #include <unistd.h>
+#include <zlib.h>
 
 #include "strophe.h"
 #include "common.h"
@@ -145,6 +146,9 @@ struct simfd {
     int wtls;
     int last_errno;
     int close_count;
+    /* transparent XEP-0138 codec of the simulated server (active while the library has its
+       compression layer installed on this connection) */
+    z_stream zin, zout; int zin_on, zout_on;
 };
 static struct simfd fds[MAXFD];
 static int nfds_used;
@@ -183,6 +187,9 @@ static struct simfd *getfd(int fd)
     if (i < 0 || i >= MAXFD || !fds[i].used) return NULL;
     return &fds[i];
 }
+
+struct _xmpp_conn_t;
+static int fd_compressed(int fd);
 
 /* ---------------------------------------------------------------- wrapped libc */
 int __real_close(int fd);
@@ -291,6 +298,23 @@ ssize_t __wrap_send(int fd, const void *buf, size_t len, int flags)
         if (t[0] == 'k') { acc = (size_t)atol(t + 1); if (acc > len) acc = len; }
         if (acc == 0) { errno = EAGAIN; return -1; }
     }
+    if (fd_compressed(fd)) {
+        /* log what the server obtains by inflating the accepted bytes */
+        unsigned char tmp[8192];
+        int zr;
+        if (!f->zin_on) { memset(&f->zin, 0, sizeof(f->zin)); inflateInit(&f->zin); f->zin_on = 1; }
+        f->zin.next_in = (Bytef *)buf; f->zin.avail_in = (uInt)acc;
+        do {
+            size_t got;
+            f->zin.next_out = tmp; f->zin.avail_out = sizeof(tmp);
+            zr = inflate(&f->zin, Z_SYNC_FLUSH);
+            got = sizeof(tmp) - f->zin.avail_out;
+            if (f->wcap - f->wlen < got) { f->wcap = (f->wlen + got) * 2 + 64; f->wbuf = realloc(f->wbuf, f->wcap); }
+            memcpy(f->wbuf + f->wlen, tmp, got); f->wlen += got;
+            if (zr != Z_OK && zr != Z_BUF_ERROR && zr != Z_STREAM_END) { tr("ZERR:inflate=%d ", zr); break; }
+        } while (f->zin.avail_in > 0 || f->zin.avail_out == 0);
+        return (ssize_t)acc;
+    }
     if (f->wcap - f->wlen < acc) { f->wcap = (f->wlen + acc) * 2 + 64; f->wbuf = realloc(f->wbuf, f->wcap); }
     memcpy(f->wbuf + f->wlen, buf, acc);
     f->wlen += acc;
@@ -309,7 +333,21 @@ ssize_t __wrap_recv(int fd, void *buf, size_t len, int flags)
     /* orderly close: recv returns 0 and leaves errno alone; the usual stale value on a
        non-blocking socket is EAGAIN from an earlier call */
     if (c->kind == 1) { f->rx_head++; errno = EAGAIN; return 0; }
+    /* kinds 0 and 3 carry data */
     if (c->kind == 2) { f->rx_head++; errno = ECONNRESET; return -1; }
+    if (c->kind == 0 && c->off == 0 && fd_compressed(fd)) {
+        /* the simulated server deflates this chunk (once) before it goes out */
+        uLong bound;
+        unsigned char *z;
+        if (!f->zout_on) { memset(&f->zout, 0, sizeof(f->zout)); deflateInit(&f->zout, Z_DEFAULT_COMPRESSION); f->zout_on = 1; }
+        bound = deflateBound(&f->zout, (uLong)c->len) + 64;
+        z = malloc(bound);
+        f->zout.next_in = c->data; f->zout.avail_in = (uInt)c->len;
+        f->zout.next_out = z; f->zout.avail_out = (uInt)bound;
+        deflate(&f->zout, Z_SYNC_FLUSH);
+        free(c->data);
+        c->data = z; c->len = bound - f->zout.avail_out; c->kind = 3; /* 3 = data, already encoded */
+    }
     n = c->len - c->off;
     if (n > len) n = len;
     memcpy(buf, c->data + c->off, n);
@@ -432,7 +470,8 @@ int tls_pending(struct conn_interface *intf) { (void)intf; return 0; }
 int tls_read(struct conn_interface *intf, void *buff, size_t len)
 {
     int r = (int)__wrap_recv(intf->conn->sock, buff, len, 0);
-    if (intf->conn->tls) intf->conn->tls->err = r < 0 ? errno : 0;
+    /* like SSL_read: an orderly close is an unrecoverable condition (SSL_ERROR_ZERO_RETURN) */
+    if (intf->conn->tls) intf->conn->tls->err = r < 0 ? errno : (r == 0 ? ECONNRESET : 0);
     return r;
 }
 int tls_write(struct conn_interface *intf, const void *buff, size_t len)
@@ -452,6 +491,15 @@ static xmpp_conn_t *conns[MAXCONN];
 static int conn_released[MAXCONN];
 static int nconn, cur;
 static xmpp_sm_state_t *held_sm;
+
+static int fd_compressed(int fd)
+{
+    int i;
+    for (i = 0; i < nconn; i++)
+        if (!conn_released[i] && conns[i]->sock == fd && conns[i]->state != XMPP_STATE_DISCONNECTED)
+            return conns[i]->intf.read != sock_intf.read && conns[i]->intf.read != tls_intf.read;
+    return 0;
+}
 
 static int conn_index(xmpp_conn_t *c)
 {
@@ -484,6 +532,7 @@ static int scripted_ret(struct hdef *h)
 static int sw_stanza_handler(xmpp_conn_t *conn, xmpp_stanza_t *stanza, void *ud)
 {
     struct hdef *h = ud;
+    wflush_all();
     const char *name = xmpp_stanza_get_name(stanza);
     const char *id = xmpp_stanza_get_id(stanza);
     h->calls++;
@@ -494,6 +543,7 @@ static int sw_stanza_handler(xmpp_conn_t *conn, xmpp_stanza_t *stanza, void *ud)
 static int sw_timed_handler(xmpp_conn_t *conn, void *ud)
 {
     struct hdef *h = ud;
+    wflush_all();
     h->calls++;
     tr("H%d@%llu:timed ", (int)(h - hdefs), (unsigned long long)now_ms);
     run_actions(conn, h->actions);
@@ -569,6 +619,7 @@ static const char *errname(int e)
 static void sw_conn_handler(xmpp_conn_t *conn, xmpp_conn_event_t ev, int error, xmpp_stream_error_t *se, void *ud)
 {
     int ci = conn_index(conn);
+    wflush_all();
     (void)ud;
     switch (ev) {
     case XMPP_CONN_CONNECT:
@@ -610,6 +661,8 @@ static void world_reset(void)
         int k;
         if (!fds[i].used) continue;
         for (k = fds[i].rx_head; k != fds[i].rx_tail; k++) free(fds[i].rx[k % 512].data);
+        if (fds[i].zin_on) inflateEnd(&fds[i].zin);
+        if (fds[i].zout_on) deflateEnd(&fds[i].zout);
         free(fds[i].wbuf);
     }
     memset(fds, 0, sizeof(fds));
@@ -685,6 +738,7 @@ static void exec_cmd(char *cmd)
         else { free(srv_answer); srv_answer = (char *)unhex(argv[1], &srv_answer_len); srv_fail = 0; }
     } else if (!strcmp(argv[0], "gai")) {
         unsigned char *h = unhex(argv[1], NULL);
+        { int gi; for (gi = 0; gi < gai_n; gi++) if (!strcmp(gai_rules[gi].host, (char *)h)) { gai_rules[gi] = gai_rules[gai_n - 1]; gai_n--; break; } }
         if (gai_n < 16) {
             snprintf(gai_rules[gai_n].host, sizeof(gai_rules[gai_n].host), "%s", (char *)h);
             gai_rules[gai_n].fail = !strcmp(argv[2], "fail");
@@ -694,6 +748,7 @@ static void exec_cmd(char *cmd)
         free(h);
     } else if (!strcmp(argv[0], "ep")) {
         char *s2 = NULL, *e;
+        ep_n = ep_i = 0; /* a new script replaces what is left of the previous one */
         for (e = strtok_r(argv[1], ",", &s2); e && ep_n < 64; e = strtok_r(NULL, ",", &s2))
             ep_script[ep_n++] = !strcmp(e, "refuse") ? EP_REFUSE : !strcmp(e, "late") ? EP_LATE : !strcmp(e, "hang") ? EP_HANG
                               : !strcmp(e, "immediate") ? EP_IMMEDIATE : EP_ACCEPT;
